@@ -153,6 +153,9 @@ func newCache(cfg *CacheCfg) (cacheAPI, error) {
 	// string kinds: the key text is "k<int>" unless the plan gives the bytes
 	// itself (adversarial key families: trailing NULs, shared prefixes, ...)
 	text := func(i int) string {
+		if keys[i].Empty {
+			return ""
+		}
 		if keys[i].StrB != nil {
 			return string(keys[i].StrB)
 		}
